@@ -485,14 +485,18 @@ func (b *assignmentBuilder) isExternalPkg(pkg *types.Package) bool {
 func (b *assignmentBuilder) resolveExpr(matcher *option.IdentMatcher, root bmodel.Node) (node bmodel.Node, ok bool) {
 	node = root
 	typ := root.ExprType()
+	// Whether the value reached so far has an address: an operand is a variable, the result
+	// of a getter is not. A method with a pointer receiver cannot be called on the latter.
+	addressable := true
 	for i := 0; i < matcher.PathLen(); i++ {
 		isLast := matcher.PathLen() == i+1
 		pkg := util.PkgOf(typ)
 
-		obj, _, _ := types.LookupFieldOrMethod(typ, true, pkg, matcher.NameAt(i))
+		obj, _, _ := types.LookupFieldOrMethod(typ, addressable, pkg, matcher.NameAt(i))
 		if obj == nil {
 			return
 		}
+		addressable = !matcher.ForGetter(i) && (addressable || util.IsPtr(typ))
 
 		external := b.isExternalPkg(pkg)
 		if matcher.ForGetter(i) {
@@ -565,14 +569,16 @@ func (b *assignmentBuilder) resolveTemplatedExpr(
 		return node, true
 	}
 
+	addressable := true
 	for i := 1; i < matcher.PathLen(); i++ {
 		isLast := matcher.PathLen() == i+1
 
 		pkg := util.PkgOf(typ)
-		obj, _, _ := types.LookupFieldOrMethod(typ, true, pkg, matcher.NameAt(i))
+		obj, _, _ := types.LookupFieldOrMethod(typ, addressable, pkg, matcher.NameAt(i))
 		if obj == nil {
 			return
 		}
+		addressable = !matcher.ForGetter(i) && (addressable || util.IsPtr(typ))
 		external := b.isExternalPkg(pkg)
 		if matcher.ForGetter(i) {
 			method, valid := obj.(*types.Func)
